@@ -2,6 +2,7 @@
 package c11
 
 import (
+	"sort"
 	"encoding/json"
 	"fmt"
 	"strconv"
@@ -573,8 +574,68 @@ func checkModel(m *ref.SpecModel, text string, toks []ref.Tok) error {
 				return fmt.Errorf("rule %s of the typed tree is not a non-terminal of the derived grammar\nspecification:\n%s", name, text)
 			}
 		}
+		// structure: one non-terminal per rule name and one per distinct bracketed operand and operator in the tree
+		// (two occurrences of the same operand under the same operator are the same synthesised rule)
+		// (counted on the written specification: the typed tree does not keep parentheses)
+		heads := map[string]bool{}
+		for _, r := range m.Rules() {
+			heads[r.Name] = true
+		}
+		if want, have := len(heads)+distinctBrackets(m.Rules()), sp.Grammar.NonTerminals.Size(); want != have {
+			return fmt.Errorf("the specification has %d rule names and %d distinct bracketed operands (per operator), the grammar emerge derives has %d non-terminals instead of %d\nspecification:\n%s\ngrammar:\n%v", len(heads), distinctBrackets(m.Rules()), have, want, text, sp.Grammar)
+		}
 	}
 	return nil
+}
+
+// distinctBrackets counts the distinct (operator, operand) pairs of the rules, where an operand is the list of its
+// alternatives in any order, each a sequence of symbols, and a nested bracket counts as the symbol it stands for.
+func distinctBrackets(rules []*ref.Decl) int {
+	keys := map[string]bool{}
+	var seqs func(r *ref.RHS) []string
+	seqs = func(r *ref.RHS) []string {
+		if r == nil {
+			return []string{""}
+		}
+		switch r.K {
+		case "str", "tok":
+			return []string{"t:" + r.Name}
+		case "nt":
+			return []string{"n:" + r.Name}
+		case "empty":
+			return []string{""}
+		case "cat":
+			out := []string{""}
+			for _, s := range r.Subs {
+				var next []string
+				for _, a := range out {
+					for _, b := range seqs(s) {
+						next = append(next, strings.TrimSpace(a+" "+b))
+					}
+				}
+				out = next
+			}
+			return out
+		case "alt":
+			var out []string
+			for _, s := range r.Subs {
+				out = append(out, seqs(s)...)
+			}
+			return out
+		default: // grp opt star plus
+			// alternatives in any order; an alternative written twice is kept twice (emerge files operands under a
+			// digest of the sorted list of alternatives)
+			alts := append([]string{}, seqs(r.Subs[0])...)
+			sort.Strings(alts)
+			key := r.K + "#" + strings.Join(alts, "|")
+			keys[key] = true
+			return []string{"g:<" + key + ">"}
+		}
+	}
+	for _, r := range rules {
+		seqs(r.RHS)
+	}
+	return len(keys)
 }
 
 // preorder lists the canonical nodes (kind:name) in pre-order; Concat/Alt/brackets are interior nodes.
